@@ -387,6 +387,14 @@ def job_qasm_param(a):
                     m = re.search(r"\{\n(.*?)\}\n", text, re.S)
                     body = m.group(1) if m else None
                     why = None if body == "".join(want) else f"body {body!r} is not {''.join(want)!r}"
+                    head = "gate circ " + " ".join(str.__str__(k) for k in formal) + " {\n"
+                    if why is None and text.count(head) != 1:
+                        why = f"no declaration line {head!r} (formal parameter i must be the name of qubit i)"
+                    app = "circ " + ",".join(f"q[{i}]" for i in range(nq)) + ";\n"
+                    if why is None and mode == "circuit" and not text.endswith("}\n\n" + app):
+                        why = f"the text does not end with the application line {app!r}"
+                    if why is None and mode == "gate" and not text.endswith("}\n\n"):
+                        why = "gate mode prints something after the declaration"
                 except AssertionError as ex:
                     # value-dependent code is not wrong by itself: the enumerated layer (job_qasm, every wire permutation) decides it
                     out.append(res(name, UNDECIDED, detail=f"not parametric, left to the enumerated layer: {ex}", **base))
